@@ -26,9 +26,46 @@ func powerImages(base *simos.FS, log []*simos.Op, synced []int, k, randomSets in
 		}
 	}
 	var lastDropped []*simos.Op
+	// Within one 512-byte sector the disk holds the page-cache content of SOME
+	// moment: a later write to a sector cannot persist without the earlier
+	// un-synced writes to that same sector. So an image is a per-sector prefix:
+	// keeping (a sector of) a write first applies, for that sector, every
+	// earlier un-synced write that was dropped or torn there. Across sectors any
+	// combination is possible (and is what is sampled).
+	type pend struct {
+		op   *simos.Op
+		done map[int64]bool
+	}
 	build := func(keep func(i int) bool, tear func(i int) func(int) bool) *simos.FS {
 		lastDropped = nil
 		img := base.Clone()
+		pending := map[int][]*pend{}
+		applyKept := func(op *simos.Op, keepAbs func(int64) bool, torn bool) {
+			f0, l0 := op.Sectors()
+			for _, d := range pending[op.Ino] {
+				df, dl := d.op.Sectors()
+				if dl < f0 || df > l0 {
+					continue
+				}
+				img.ApplySectors(d.op, func(a int64) bool {
+					if a < f0 || a > l0 || !keepAbs(a) || d.done[a] {
+						return false
+					}
+					d.done[a] = true
+					return true
+				}, false)
+			}
+			img.ApplySectors(op, keepAbs, true)
+			if torn {
+				p := &pend{op: op, done: map[int64]bool{}}
+				for a := f0; a <= l0; a++ {
+					if keepAbs(a) {
+						p.done[a] = true
+					}
+				}
+				pending[op.Ino] = append(pending[op.Ino], p)
+			}
+		}
 		for i := 0; i < k; i++ {
 			op := log[i]
 			if !op.Mutating() {
@@ -37,14 +74,22 @@ func powerImages(base *simos.FS, log []*simos.Op, synced []int, k, randomSets in
 			if op.DataOp() && synced[i] >= k {
 				if !keep(i) {
 					lastDropped = append(lastDropped, op)
+					if op.Kind == simos.OpWrite {
+						pending[op.Ino] = append(pending[op.Ino], &pend{op: op, done: map[int64]bool{}})
+					}
 					continue
 				}
-				if tear != nil {
-					if t := tear(i); t != nil {
-						lastDropped = append(lastDropped, op)
-						img.ApplyTorn(op, t)
-						continue
+				if op.Kind == simos.OpWrite {
+					if tear != nil {
+						if t := tear(i); t != nil {
+							lastDropped = append(lastDropped, op)
+							f0, _ := op.Sectors()
+							applyKept(op, func(a int64) bool { return t(int(a - f0)) }, true)
+							continue
+						}
 					}
+					applyKept(op, func(int64) bool { return true }, false)
+					continue
 				}
 			}
 			img.Apply(op)
